@@ -2,6 +2,8 @@
 Line-protocol driver over the key-value store model (C11).  One output line per input line.
 
   open r|f                       fresh database, RocksDB / Fjall flavour          -> ok
+  open r|f old                   … with the HISTORICAL family cache keyed by the type id alone (F19;
+                                 never emitted by the harness, for replaying by hand)  -> ok
   bnew H | snew S                new write batch / serialization buffer           -> ok
   put  b|s H ID P|S D K V        wide-column put through batch / buffer           -> ok | panic
   del  b|s H ID P|S D K          wide-column delete                               -> ok | panic
@@ -92,6 +94,8 @@ def step (st : St) (w : List String) : Option (String × St) :=
   match w with
   | ["open", "r"] => some ("ok", { be := rocks, db := {} })
   | ["open", "f"] => some ("ok", { be := fjall, db := {} })
+  | ["open", "r", "old"] => some ("ok", { be := rocksF19, db := {} })
+  | ["open", "f", "old"] => some ("ok", { be := fjallF19, db := {} })
   | ["bnew", h] => do
     let h ← h.toNat?
     some ("ok", { st with db := batchNew st.db h })
